@@ -30,7 +30,8 @@ def hashIndex (exp : Nat) (v : UInt64) : Nat :=
   let b2 := if exp ≤ 9 then b1 + (v >>> (UInt64.ofNat (exp * 2 + 3))) else b1
   (b2 &&& ((1 : UInt64) <<< (UInt64.ofNat exp) - 1)).toNat
 
-/-- `unit_to_thread` without its link; `unit = 0` is `ABT_UNIT_NULL` (tombstone) -/
+/-- `unit_to_thread` without its link; `unit = nul` (the value of `ABT_UNIT_NULL`, `0x7` in
+this build, `NULL` in others; a field of the table) marks a tombstone -/
 structure Entry where
   unit : UInt64
   thr : Nat
@@ -38,42 +39,43 @@ deriving Repr, DecidableEq
 
 structure UM where
   exp : Nat
+  nul : UInt64
   b : Nat → List Entry
 
-def empty (exp : Nat) : UM := { exp := exp, b := fun _ => [] }
+def empty (exp : Nat) (nul : UInt64) : UM := { exp := exp, nul := nul, b := fun _ => [] }
 
 def updB (f : Nat → List Entry) (i : Nat) (c : List Entry) : Nat → List Entry :=
   fun j => if j = i then c else f j
 
 /-- overwrite the first tombstone; `none` when there is none -/
-def chainReuse (u : UInt64) (th : Nat) : List Entry → Option (List Entry)
+def chainReuse (z : UInt64) (u : UInt64) (th : Nat) : List Entry → Option (List Entry)
   | [] => none
   | e :: r =>
-    if e.unit = 0 then some ({ unit := u, thr := th } :: r)
-    else match chainReuse u th r with
+    if e.unit = z then some ({ unit := u, thr := th } :: r)
+    else match chainReuse z u th r with
       | some r' => some (e :: r')
       | none => none
 
 /-- `unit_map_thread`; outer `none`: ABT_ERR_MEM (needed a new element, malloc failed) -/
 def mapThread (m : UM) (u : UInt64) (th : Nat) (mem : Bool) : Option UM :=
   let i := hashIndex m.exp u
-  match chainReuse u th (m.b i) with
+  match chainReuse m.nul u th (m.b i) with
   | some c => some { m with b := updB m.b i c }
   | none => if mem then some { m with b := updB m.b i ({ unit := u, thr := th } :: m.b i) } else none
 
 /-- tombstone the first element holding `u`; `none` = not found (assertion failure) -/
-def chainClear (u : UInt64) : List Entry → Option (List Entry)
+def chainClear (z : UInt64) (u : UInt64) : List Entry → Option (List Entry)
   | [] => none
   | e :: r =>
-    if e.unit = u then some ({ e with unit := 0 } :: r)
-    else match chainClear u r with
+    if e.unit = u then some ({ e with unit := z } :: r)
+    else match chainClear z u r with
       | some r' => some (e :: r')
       | none => none
 
 /-- `unit_unmap_thread`; `none` = abort -/
 def unmapThread (m : UM) (u : UInt64) : Option UM :=
   let i := hashIndex m.exp u
-  match chainClear u (m.b i) with
+  match chainClear m.nul u (m.b i) with
   | some c => some { m with b := updB m.b i c }
   | none => none
 
@@ -116,8 +118,7 @@ def runOps (m : UM) : List Op → UM × List Out
     let (m2, os) := runOps m1 ops
     (m2, o :: os)
 
-def Entry.dump (e : Entry) : String := if e.unit = 0 then "-" else s!"{e.unit}>{e.thr}"
-def dumpChain (c : List Entry) : String := " ".intercalate (c.map Entry.dump)
+def Entry.dump (z : UInt64) (e : Entry) : String := if e.unit = z then "-" else s!"{e.unit}>{e.thr}"
 
 /-! ## Part 2: interleaving model (lock-free get against map / unmap)
 
